@@ -135,9 +135,10 @@ def check_guards(ctx, mf):
 
   atomic.guards_before_first_write(
     ctx, ix.func("ttconv.model:ContentElement.set_region"),
-    {"attached": lambda t: "get_doc()" in unparse(t) and "None" in unparse(t), "region-known": lambda t: "has_region" in unparse(t)},
+    {"attached": lambda t: "get_doc()" in unparse(t) and "None" in unparse(t), "region-known": _is_registered_region_test},
     "GUARD", is_field_write("_region"),
-    {"attached": "the element is not attached to a document", "region-known": "the region is not registered in the element's document"})
+    {"attached": "the element is not attached to a document",
+     "region-known": "the region object is not the one registered under its id in the element's document (a test of the id alone lets a region of another document through)"})
   atomic.guards_before_first_write(
     ctx, ix.func("ttconv.model:ContentDocument.put_region"),
     {"is-region": lambda t: "isinstance" in unparse(t) and "Region" in unparse(t), "same-document": lambda t: "get_doc()" in unparse(t)},
@@ -294,6 +295,19 @@ def check_special_values(ctx):
                 f"{name}.validate {'accepts' if got else 'rejects'} SpecialValues.{sname}, but `{sname}` {'is not' if got else 'is'} a value of tts:{name[0].lower() + name[1:]} "
                 f"(TTML initial value: {oracle.STYLES[name][1]})")
   ctx.floor("FIN-validate", "validate() x special value evaluations", n, 40)
+
+
+def _is_registered_region_test(t) -> bool:
+  """The test compares, by identity, the region handed in with what the document has registered (get_region(<id>) /
+  the registry itself): only that establishes `the region referenced is the region registered under that id`."""
+  for c in ast.walk(t):
+    if isinstance(c, ast.Compare) and len(c.ops) == 1 and isinstance(c.ops[0], (ast.Is, ast.IsNot, ast.Eq, ast.NotEq)):
+      for a, b in ((c.left, c.comparators[0]), (c.comparators[0], c.left)):
+        looked_up = any(isinstance(x, ast.Call) and isinstance(x.func, ast.Attribute) and x.func.attr in ("get_region", "get") for x in ast.walk(a)) or \
+          any(isinstance(x, ast.Subscript) and "_regions" in unparse(x.value) for x in ast.walk(a))
+        if looked_up and isinstance(b, ast.Name):
+          return True
+  return False
 
 
 def run(ctx):
